@@ -50,7 +50,7 @@ ASSUMPTIONS = [
     "class-level access of a decorated method, traced outside any event loop and python -O runs are unspecified",
     "real threads and a real selector loop are used; no verdict depends on timing (the blocking function is released by the heartbeat task itself)",
 ]
-MINIMUMS = {"monitor:transparent": 1500, "monitor:off-loop-thread": 300, "monitor:caller-context": 300, "monitor:no-leak": 300, "monitor:traced-scope": 200, "monitor:mimic": 20, "method_calls": 150, "kwargs_calls": 400, "awaitable_results": 100}
+MINIMUMS = {"monitor:transparent": 1500, "monitor:off-loop-thread": 300, "monitor:caller-context": 300, "monitor:no-leak": 300, "monitor:traced-scope": 200, "monitor:mimic": 20, "method_calls": 150, "kwargs_calls": 400, "awaitable_results": 100, "calls_prepared_elsewhere_and_awaited_later": 150, "calls_through_wrapped_uncommon_callables": 16, "calls_of_callables_with_another_advertised_signature": 6}
 JOBS = {"quick": 4, "thorough": 8}
 LEVEL_TEXT = (
     "Every (signature, call form, outcome) of an 8-signature family is run plainly and through asynchronous (function / method, default / explicit executor, both decorator forms), "
